@@ -99,7 +99,29 @@ func toForm(c *Ctx, info *types.Info, e ast.Expr, param types.Object) *bform {
 		if t.Op == token.NOT {
 			return &bform{op: "not", sub: []*bform{toForm(c, info, t.X, param)}}
 		}
+	case *ast.Ident:
+		// a boolean local with one definition stands for its defining expression
+		if v, ok := info.ObjectOf(t).(*types.Var); ok && v != param && !v.IsField() && v.Parent() != nil && v.Parent() != v.Pkg().Scope() {
+			if ed := c.EnclosingDecl(t); ed != nil && countAssignments(info, ed, v) == 1 {
+				if as, i := definingAssign(info, ed, v); as != nil && len(as.Lhs) == len(as.Rhs) && as.Pos() < t.Pos() {
+					return toForm(c, info, as.Rhs[i], param)
+				}
+			}
+		}
 	case *ast.CallExpr:
+		// a predicate of the package over the rune: func isPlainDigit(r rune) bool { return <expr over r> }
+		if cal := Callee(info, t); cal != nil && len(t.Args) == 1 && isParam(t.Args[0]) {
+			if root := c.Pkg(""); root != nil && cal.Pkg() == root.Types {
+				if hd := findFuncDecl(root, cal); hd != nil && hd.Body != nil && hd.Recv == nil && len(hd.Body.List) == 1 && hd.Type.Params.NumFields() == 1 && len(hd.Type.Params.List[0].Names) == 1 {
+					if r, ok := hd.Body.List[0].(*ast.ReturnStmt); ok && len(r.Results) == 1 && !containsNode(r, func(y ast.Node) bool {
+						cc, ok := y.(*ast.CallExpr)
+						return ok && Callee(info, cc) == cal // no recursion
+					}) {
+						return toForm(c, info, r.Results[0], info.Defs[hd.Type.Params.List[0].Names[0]])
+					}
+				}
+			}
+		}
 		if cal := Callee(info, t); cal != nil && cal.Pkg() != nil {
 			if cal.Pkg().Path() == "unicode" && len(t.Args) == 1 && isParam(t.Args[0]) {
 				return &bform{op: "atom", atom: "unicode." + cal.Name()}
@@ -179,8 +201,59 @@ func ruleR046(c *Ctx) {
 					})
 				}
 			}
-			if start == nil || lit == nil || len(lit.Type.Params.List) != 1 || len(lit.Type.Params.List[0].Names) != 1 {
-				c.Undecided(key, fd.Pos(), "shape of the matcher not recognised (if START { return func(r) bool {...}, true })")
+			var S *bform
+			startText := ""
+			exact := true
+			if start != nil {
+				S = toForm(c, info, start, startParam)
+				startText = nodeStr(c.Fset, start)
+			} else {
+				// guard form: if !START { return nil, false }; return func(r) bool {...}, true. The start test is the
+				// conjunction of the branch outcomes that dominate the one return of a literal.
+				var rets []*ast.ReturnStmt
+				inspectNoLit(fd.Body, func(x ast.Node) bool {
+					if r, ok := x.(*ast.ReturnStmt); ok && len(r.Results) == 2 {
+						if _, ok := ast.Unparen(r.Results[0]).(*ast.FuncLit); ok {
+							rets = append(rets, r)
+						}
+					}
+					return true
+				})
+				if g := c.CFG(fd); g != nil && len(rets) == 1 {
+					lit = ast.Unparen(rets[0].Results[0]).(*ast.FuncLit)
+					S = &bform{op: "and", sub: []*bform{{op: "true"}}}
+					var texts []string
+					for _, gd := range g.Guards(rets[0]) {
+						if gd.Synth || gd.Derived {
+							continue
+						}
+						f := toForm(c, info, gd.Cond, startParam)
+						t := nodeStr(c.Fset, gd.Cond)
+						if !gd.Val {
+							f = &bform{op: "not", sub: []*bform{f}}
+							t = "!(" + t + ")"
+						}
+						S.sub = append(S.sub, f)
+						texts = append(texts, t)
+					}
+					startText = strings.Join(texts, " && ")
+					// the dominating outcomes are the whole path condition only if the return is reached on one path
+					if b, _, ok := g.Pos(rets[0]); ok {
+						for cur := b; cur.Index != 0; {
+							ps := g.preds[cur.Index]
+							if len(ps) != 1 {
+								exact = false
+								break
+							}
+							cur = g.G.Blocks[ps[0]]
+						}
+					} else {
+						exact = false
+					}
+				}
+			}
+			if S == nil || lit == nil || len(lit.Type.Params.List) != 1 || len(lit.Type.Params.List[0].Names) != 1 {
+				c.Undecided(key, fd.Pos(), "shape of the matcher not recognised (if START { return func(r) bool {...}, true } or guards in front of the one return of a literal)")
 				continue
 			}
 			contParam := info.Defs[lit.Type.Params.List[0].Names[0]]
@@ -201,7 +274,6 @@ func ruleR046(c *Ctx) {
 				c.Undecided(key, lit.Pos(), "no returned predicate")
 				continue
 			}
-			S := toForm(c, info, start, startParam)
 			C := toForm(c, info, cont, contParam)
 			atomSet := map[string]bool{}
 			S.atoms(atomSet)
@@ -280,9 +352,11 @@ func ruleR046(c *Ctx) {
 				}
 			}
 			if witness == nil {
-				c.OK(key, fd.Pos(), "for every rune that reaches the matcher, the start test (%s) implies the continuation predicate", nodeStr(c.Fset, start))
+				c.OK(key, fd.Pos(), "for every rune that reaches the matcher, the start test (%s) implies the continuation predicate", startText)
+			} else if !exact {
+				c.Undecided(key, fd.Pos(), "the literal is returned on several paths, the start test is not a conjunction of branch outcomes")
 			} else {
-				c.Violation(key, fd.Pos(), "the start test %s accepts runes that the continuation predicate rejects (a rune with %s): the tokenizer then emits an empty token without consuming the rune and never terminates", nodeStr(c.Fset, start), strings.Join(witness, ", "))
+				c.Violation(key, fd.Pos(), "the start test %s accepts runes that the continuation predicate rejects (a rune with %s): the tokenizer then emits an empty token without consuming the rune and never terminates", startText, strings.Join(witness, ", "))
 			}
 		}
 	}
@@ -959,10 +1033,67 @@ func ruleR0412(c *Ctx) {
 		return
 	}
 	info := fg.TypesInfo
+	// origin of a Function valued expression inside fd
+	classify := func(fd *ast.FuncDecl, e ast.Expr) (kind, origin string) {
+		kind, origin = "unknown", nodeStr(c.Fset, e)
+		id, ok := ast.Unparen(e).(*ast.Ident)
+		if !ok {
+			return
+		}
+		as, i := definingAssign(info, fd, info.ObjectOf(id))
+		if as == nil {
+			return
+		}
+		var rhs ast.Expr
+		if len(as.Rhs) == len(as.Lhs) {
+			rhs = as.Rhs[i]
+		} else if len(as.Rhs) == 1 {
+			rhs = as.Rhs[0]
+		}
+		switch r := ast.Unparen(rhs).(type) {
+		case *ast.IndexExpr:
+			if _, isMap := info.TypeOf(r.X).Underlying().(*types.Map); isMap {
+				kind, origin = "static-function", nodeStr(c.Fset, r.X)
+			}
+		case *ast.CallExpr:
+			if cal := Callee(info, r); cal != nil {
+				origin = cal.Name()
+				if sig, ok := cal.Type().(*types.Signature); ok && sig.Recv() != nil {
+					if rn := namedOf(sig.Recv().Type()); rn != nil {
+						switch {
+						case strings.Contains(rn.Obj().Name(), "Closure"):
+							kind = "closure"
+						case strings.Contains(rn.Obj().Name(), "Method"):
+							kind = "method"
+						}
+					}
+				}
+			}
+		}
+		return
+	}
 	n := 0
+	ord := map[string]map[string]int{}
+	report := func(fname, kind, origin string, pos token.Pos) {
+		n++
+		if ord[fname] == nil {
+			ord[fname] = map[string]int{}
+		}
+		ord[fname][kind]++
+		key := fmt.Sprintf("%s#generate-time-exec:%s[%d]", fname, kind, ord[fname][kind])
+		switch kind {
+		case "static-function":
+			c.OK(key, pos, "a static function (%s) is applied to constant arguments: one call of library or host code, whose cost the host declares acceptable by registering the function as pure", origin)
+		case "closure":
+			c.Violation(key, pos, "the optimizer applies a constant closure of the program (%s) to constant arguments while Parse/Generate runs, without a step budget, size limit or deadline: the running time of Parse/Generate is that of the program's constant sub-expressions, not a function of the length of the input", origin)
+		case "method":
+			c.Violation(key, pos, "the optimizer calls a method (%s) on a constant value while Parse/Generate runs, without a step budget, size limit or deadline: a method may consume a lazy list of any length or call closures, so the running time of Parse/Generate is not a function of the length of the input", origin)
+		default:
+			c.Undecided(key, pos, "a Function value of unknown origin (%s) is executed by the optimizer", origin)
+		}
+	}
 	for _, fd := range decls {
 		fname := declName(fg, fd)
-		ord := map[string]int{}
 		ast.Inspect(fd.Body, func(x ast.Node) bool {
 			call, ok := x.(*ast.CallExpr)
 			if !ok {
@@ -982,51 +1113,47 @@ func ruleR0412(c *Ctx) {
 			if _, isSig := fs.Obj().Type().Underlying().(*types.Signature); !isSig {
 				return true
 			}
-			// where does the Function value come from?
-			kind, origin := "unknown", nodeStr(c.Fset, sel.X)
-			if id, ok := ast.Unparen(sel.X).(*ast.Ident); ok {
-				if as, i := definingAssign(info, fd, info.ObjectOf(id)); as != nil {
-					var rhs ast.Expr
-					if len(as.Rhs) == len(as.Lhs) {
-						rhs = as.Rhs[i]
-					} else if len(as.Rhs) == 1 {
-						rhs = as.Rhs[0]
+			// the Function is a parameter of a private helper (evalConstCall(ast, fu, args, line)): the origin is decided
+			// at the helper's call sites, which keep the name of the calling optimizer method in the key
+			if id, ok := ast.Unparen(sel.X).(*ast.Ident); ok && fd.Type.Params != nil {
+				pidx, k := -1, 0
+				for _, fl := range fd.Type.Params.List {
+					for _, nm := range fl.Names {
+						if info.Defs[nm] == info.ObjectOf(id) {
+							pidx = k
+						}
+						k++
 					}
-					switch r := ast.Unparen(rhs).(type) {
-					case *ast.IndexExpr:
-						if _, isMap := info.TypeOf(r.X).Underlying().(*types.Map); isMap {
-							kind, origin = "static-function", nodeStr(c.Fset, r.X)
+				}
+				if pidx >= 0 {
+					hobj := info.Defs[fd.Name]
+					found := false
+					for _, cd := range decls {
+						if cd == fd {
+							continue
 						}
-					case *ast.CallExpr:
-						if cal := Callee(info, r); cal != nil {
-							origin = cal.Name()
-							if sig, ok := cal.Type().(*types.Signature); ok && sig.Recv() != nil {
-								if rn := namedOf(sig.Recv().Type()); rn != nil {
-									switch {
-									case strings.Contains(rn.Obj().Name(), "Closure"):
-										kind = "closure"
-									case strings.Contains(rn.Obj().Name(), "Method"):
-										kind = "method"
-									}
-								}
+						cname := declName(fg, cd)
+						ast.Inspect(cd.Body, func(y ast.Node) bool {
+							cc, ok := y.(*ast.CallExpr)
+							if !ok || pidx >= len(cc.Args) {
+								return true
 							}
-						}
+							if cal := Callee(info, cc); cal == nil || types.Object(cal) != hobj && cal.Origin() != hobj {
+								return true
+							}
+							found = true
+							kind, origin := classify(cd, cc.Args[pidx])
+							report(cname, kind, origin, cc.Pos())
+							return true
+						})
+					}
+					if found {
+						return true
 					}
 				}
 			}
-			n++
-			ord[kind]++
-			key := fmt.Sprintf("%s#generate-time-exec:%s[%d]", fname, kind, ord[kind])
-			switch kind {
-			case "static-function":
-				c.OK(key, call.Pos(), "a static function (%s) is applied to constant arguments: one call of library or host code, whose cost the host declares acceptable by registering the function as pure", origin)
-			case "closure":
-				c.Violation(key, call.Pos(), "the optimizer applies a constant closure of the program (%s) to constant arguments while Parse/Generate runs, without a step budget, size limit or deadline: the running time of Parse/Generate is that of the program's constant sub-expressions, not a function of the length of the input", origin)
-			case "method":
-				c.Violation(key, call.Pos(), "the optimizer calls a method (%s) on a constant value while Parse/Generate runs, without a step budget, size limit or deadline: a method may consume a lazy list of any length or call closures, so the running time of Parse/Generate is not a function of the length of the input", origin)
-			default:
-				c.Undecided(key, call.Pos(), "a Function value of unknown origin (%s) is executed by the optimizer", origin)
-			}
+			kind, origin := classify(fd, sel.X)
+			report(fname, kind, origin, call.Pos())
 			return true
 		})
 	}
